@@ -53,6 +53,11 @@ type SeenSleepCommand struct {
 	Key      SleepCommandKey
 	SeenAt   time.Time
 	SeenFrom identity.AgentID
+	// ValidUntil is the instant up to which the (signed) command still passes
+	// timestamp verification. The entry is kept at least that long, otherwise a
+	// replay of the command would be accepted as new. Zero when commands are
+	// not verified.
+	ValidUntil time.Time
 }
 
 // FloodConfig contains configuration for the flood protocol.
@@ -874,18 +879,22 @@ func (f *Flooder) cleanupNodeInfoCache(now time.Time, expiry time.Duration) {
 // Must be called with f.sleepCmdMu held.
 func (f *Flooder) cleanupSleepCmdCache(now time.Time, expiry time.Duration) {
 	for key, entry := range f.sleepCmdSeenCache {
-		if now.Sub(entry.SeenAt) > expiry {
+		if now.Sub(entry.SeenAt) > expiry && now.After(entry.ValidUntil) {
 			delete(f.sleepCmdSeenCache, key)
 		}
 	}
 
-	// If still too large, remove oldest entries
+	// If still too large, remove entries, but never one whose command would
+	// still verify: forgetting it would let a replay take effect again
 	excess := len(f.sleepCmdSeenCache) - f.cfg.MaxSeenCacheSize
 	if excess <= 0 {
 		return
 	}
 	removed := 0
-	for key := range f.sleepCmdSeenCache {
+	for key, entry := range f.sleepCmdSeenCache {
+		if !now.After(entry.ValidUntil) {
+			continue
+		}
 		delete(f.sleepCmdSeenCache, key)
 		removed++
 		if removed >= excess {
@@ -1185,9 +1194,37 @@ func (f *Flooder) NodeInfoSeenCacheSize() int {
 	return len(f.nodeInfoSeenCache)
 }
 
+// sleepCmdSeen reports whether a sleep/wake command is already in the seen cache.
+// An entry seen again from a different peer is refreshed.
+func (f *Flooder) sleepCmdSeen(originAgent identity.AgentID, commandID uint64, fromPeer identity.AgentID) bool {
+	key := SleepCommandKey{
+		OriginAgent: originAgent,
+		CommandID:   commandID,
+	}
+
+	f.sleepCmdMu.Lock()
+	defer f.sleepCmdMu.Unlock()
+
+	existing, ok := f.sleepCmdSeenCache[key]
+	if ok && existing.SeenFrom != fromPeer {
+		existing.SeenAt = time.Now()
+	}
+	return ok
+}
+
+// commandValidUntil returns the instant after which a signed command with the
+// given timestamp no longer passes verification (zero when commands are not verified).
+func (f *Flooder) commandValidUntil(timestamp uint64) time.Time {
+	if f.signingPubKey == nil {
+		return time.Time{}
+	}
+	return time.Unix(int64(timestamp), 0).Add(f.timestampWindow)
+}
+
 // markSleepCmdSeen checks if a sleep/wake command has been seen and marks it as seen.
-// Returns true if this is a new command.
-func (f *Flooder) markSleepCmdSeen(originAgent identity.AgentID, commandID uint64, fromPeer identity.AgentID) bool {
+// Returns true if this is a new command. Incoming commands are marked only after they
+// passed verification, so that rejected commands cannot fill the cache.
+func (f *Flooder) markSleepCmdSeen(originAgent identity.AgentID, commandID uint64, fromPeer identity.AgentID, validUntil time.Time) bool {
 	key := SleepCommandKey{
 		OriginAgent: originAgent,
 		CommandID:   commandID,
@@ -1204,9 +1241,10 @@ func (f *Flooder) markSleepCmdSeen(originAgent identity.AgentID, commandID uint6
 	}
 
 	f.sleepCmdSeenCache[key] = &SeenSleepCommand{
-		Key:      key,
-		SeenAt:   time.Now(),
-		SeenFrom: fromPeer,
+		Key:        key,
+		SeenAt:     time.Now(),
+		SeenFrom:   fromPeer,
+		ValidUntil: validUntil,
 	}
 	return true
 }
@@ -1214,7 +1252,7 @@ func (f *Flooder) markSleepCmdSeen(originAgent identity.AgentID, commandID uint6
 // HandleSleepCommand processes an incoming SLEEP_COMMAND frame.
 // Returns true if the command was new and should be processed.
 func (f *Flooder) HandleSleepCommand(fromPeer identity.AgentID, cmd *protocol.SleepCommand) bool {
-	if !f.markSleepCmdSeen(cmd.OriginAgent, cmd.CommandID, fromPeer) {
+	if f.sleepCmdSeen(cmd.OriginAgent, cmd.CommandID, fromPeer) {
 		return false
 	}
 
@@ -1229,6 +1267,11 @@ func (f *Flooder) HandleSleepCommand(fromPeer identity.AgentID, cmd *protocol.Sl
 			"command_id", cmd.CommandID,
 			"from_peer", fromPeer.ShortString(),
 			logging.KeyError, err)
+		return false
+	}
+
+	// Mark as seen only now that the command is verified (atomic check-and-insert)
+	if !f.markSleepCmdSeen(cmd.OriginAgent, cmd.CommandID, fromPeer, f.commandValidUntil(cmd.Timestamp)) {
 		return false
 	}
 
@@ -1247,7 +1290,7 @@ func (f *Flooder) HandleSleepCommand(fromPeer identity.AgentID, cmd *protocol.Sl
 // HandleWakeCommand processes an incoming WAKE_COMMAND frame.
 // Returns true if the command was new and should be processed.
 func (f *Flooder) HandleWakeCommand(fromPeer identity.AgentID, cmd *protocol.WakeCommand) bool {
-	if !f.markSleepCmdSeen(cmd.OriginAgent, cmd.CommandID, fromPeer) {
+	if f.sleepCmdSeen(cmd.OriginAgent, cmd.CommandID, fromPeer) {
 		return false
 	}
 
@@ -1262,6 +1305,11 @@ func (f *Flooder) HandleWakeCommand(fromPeer identity.AgentID, cmd *protocol.Wak
 			"command_id", cmd.CommandID,
 			"from_peer", fromPeer.ShortString(),
 			logging.KeyError, err)
+		return false
+	}
+
+	// Mark as seen only now that the command is verified (atomic check-and-insert)
+	if !f.markSleepCmdSeen(cmd.OriginAgent, cmd.CommandID, fromPeer, f.commandValidUntil(cmd.Timestamp)) {
 		return false
 	}
 
@@ -1346,7 +1394,7 @@ func (f *Flooder) verifyWakeCommand(cmd *protocol.WakeCommand) error {
 // This is used to initiate mesh-wide sleep from this agent.
 // The command should already be signed if signing is required.
 func (f *Flooder) FloodSleepCommand(cmd *protocol.SleepCommand) error {
-	f.markSleepCmdSeen(cmd.OriginAgent, cmd.CommandID, f.localID)
+	f.markSleepCmdSeen(cmd.OriginAgent, cmd.CommandID, f.localID, f.commandValidUntil(cmd.Timestamp))
 
 	cmdWithSeen := &protocol.SleepCommand{
 		OriginAgent: cmd.OriginAgent,
@@ -1370,7 +1418,7 @@ func (f *Flooder) FloodSleepCommand(cmd *protocol.SleepCommand) error {
 // This is used to initiate mesh-wide wake from this agent.
 // The command should already be signed if signing is required.
 func (f *Flooder) FloodWakeCommand(cmd *protocol.WakeCommand) error {
-	f.markSleepCmdSeen(cmd.OriginAgent, cmd.CommandID, f.localID)
+	f.markSleepCmdSeen(cmd.OriginAgent, cmd.CommandID, f.localID, f.commandValidUntil(cmd.Timestamp))
 
 	// Store pending wake command for forwarding to new peers
 	f.storePendingWake(cmd)
